@@ -65,10 +65,7 @@ func (h *ValueReader) HandleArrayValue(data []byte) (p int, err error) {
 		}
 		h2.newMapSize = h.maxMapSize
 		val, pp, err = h2.ReadObject(data)
-		mpLen := len(val.(map[string]interface{}))
-		if mpLen > h.maxMapSize {
-			h.maxMapSize = mpLen
-		}
+		h.maxMapSize = len(val.(map[string]interface{}))
 		h.returnValueReader(h2)
 	case ArrayStartType:
 		h2 := h.borrowValueReader()
@@ -116,10 +113,7 @@ func (h *ValueReader) HandleObjectValue(fieldname, data []byte) (p int, err erro
 		}
 		h2.newMapSize = h.maxMapSize
 		val, pp, err = h2.ReadObject(data)
-		mpLen := len(val.(map[string]interface{}))
-		if mpLen > h.maxMapSize {
-			h.maxMapSize = mpLen
-		}
+		h.maxMapSize = len(val.(map[string]interface{}))
 		h.returnValueReader(h2)
 	case ArrayStartType:
 		h2 := h.borrowValueReader()
